@@ -225,7 +225,45 @@ func MakeChan[T any](n int) *Chan[T] {
 	return &Chan[T]{cap: n}
 }
 
+// adopt moves the channel into the mode of the moment: a channel made while no scheduler was
+// installed (package-level variables, objects built during set-up) becomes a modelled one on its
+// first use under a scheduler - its buffered values are carried over - and the other way round.
+func (c *Chan[T]) adopt() {
+	if current != nil && c.real != nil {
+		for {
+			select {
+			case v, ok := <-c.real:
+				if !ok {
+					c.closed = true
+					c.real = nil
+					return
+				}
+				c.buf = append(c.buf, v)
+				c.clocks = append(c.clocks, nil)
+				continue
+			default:
+			}
+			break
+		}
+		c.real = nil
+	} else if current == nil && c.real == nil {
+		n := c.cap
+		if len(c.buf) > n {
+			n = len(c.buf)
+		}
+		c.real = make(chan T, n)
+		for _, v := range c.buf {
+			c.real <- v
+		}
+		c.buf, c.clocks = nil, nil
+		if c.closed {
+			close(c.real)
+		}
+	}
+}
+
 func (c *Chan[T]) Send(v T) {
+	c.adopt()
 	s := current
 	if c.real != nil {
 		c.real <- v
@@ -259,6 +297,7 @@ func (c *Chan[T]) Recv() T {
 
 // Recv2 mirrors v, ok := <-c.
 func (c *Chan[T]) Recv2() (T, bool) {
+	c.adopt()
 	s := current
 	if c.real != nil {
 		v, ok := <-c.real
@@ -287,6 +326,7 @@ func (c *Chan[T]) Recv2() (T, bool) {
 // TryRecv2 mirrors `select { case v, ok := <-c: ...; default: ... }`: got reports whether the
 // receive case was taken (a value was buffered, or the channel is closed).
 func (c *Chan[T]) TryRecv2() (v T, ok bool, got bool) {
+	c.adopt()
 	s := current
 	if c.real != nil {
 		select {
@@ -318,6 +358,7 @@ func (c *Chan[T]) TryRecv2() (v T, ok bool, got bool) {
 
 // TrySend mirrors `select { case c <- v: ...; default: ... }`.
 func (c *Chan[T]) TrySend(v T) bool {
+	c.adopt()
 	s := current
 	if c.real != nil {
 		select {
@@ -349,6 +390,7 @@ func (c *Chan[T]) TrySend(v T) bool {
 
 // Close mirrors close(c).
 func (c *Chan[T]) Close() {
+	c.adopt()
 	s := current
 	if c.real != nil {
 		close(c.real)
@@ -370,6 +412,7 @@ func (c *Chan[T]) Close() {
 
 // Len mirrors len(c).
 func (c *Chan[T]) Len() int {
+	c.adopt()
 	if c.real != nil {
 		return len(c.real)
 	}
